@@ -94,6 +94,82 @@ def o14_3_block_offsets(mir, tier):
     return res
 
 
+def o8_6_flush_faults(mir, tier):
+    """One data-block flush (flush_data_block with write_block and emit_block_to_disk inlined) in which each of the three file writes
+    (contents, compression byte, checksum) and the file flush is free to fail: the call returns Ok exactly when every step
+    succeeded; nothing more is written to the file after a failed step; the filter block builder is told about the block only
+    when it was written completely."""
+    fn = mir.method('TableBuilder', 'flush_data_block')
+    res = Result('O8.6 a failed write while flushing a data block is reported', [fn.path, 'TableBuilder::write_block (inlined)', 'TableBuilder::emit_block_to_disk (inlined)'],
+                 'one flush; the three file writes and the file flush each free to fail; sizes free; snappy encoder and block builder by contract')
+    t0 = time.time()
+    S = lib.std_summaries(); P = S['$patterns']
+    off0 = BitVec('file_offset', 64); raw = BitVec('block_len', 64); comp = BitVec('compressed_len', 64)
+    pre = [ULT(off0, bv(1 << 40)), UGE(raw, bv(8)), ULT(raw, bv(1 << 30)), UGE(comp, bv(1)), ULT(comp, bv(1 << 30))]
+    oks = [Bool('write%d_ok' % i) for i in range(3)]; fl_ok = Bool('file_flush_ok')
+    def add(env, ev):
+        st = dict(env['$state']); st['events'] = st['events'] + [ev]; env['$state'] = st; return st
+    P[r'BlockBuilder::is_empty'] = lambda se, env, pc, b: lib.one(env, BoolVal(False))
+    P[r'BlockBuilder::finalize'] = lambda se, env, pc, b: lib.one(env, {'len': raw, 'kind': 'block', 'off': bv(0)})
+    P[r'BlockBuilder::reset'] = lib.unit
+    def io_err(): return Enum('Err', (Opaque('io error'),))
+    def file_flush(se, env, pc, f):
+        st = add(env, ('flush',))
+        return [(fl_ok, Enum('Ok', ((),)), st), (Not(fl_ok), io_err(), st)]
+    P[r'<Box<dyn RandomAccessFile> as std::io::Write>::flush'] = file_flush
+    def write_all(se, env, pc, f, data):
+        n = len([e for e in env['$state']['events'] if e[0] == 'write'])
+        st = add(env, ('write', n))
+        if n >= 3: return [(None, Enum('Ok', ((),)), st)]
+        return [(oks[n], Enum('Ok', ((),)), st), (Not(oks[n]), io_err(), st)]
+    P[r'<Box<dyn RandomAccessFile> as std::io::Write>::write_all'] = write_all
+    P[r'snap::write::FrameEncoder::new'] = lambda se, env, pc, v: lib.one(env, {'abstract': True, '__ty': 'FrameEncoder'})
+    P[r'<snap::write::FrameEncoder<Vec<u8>> as std::io::Write>::write_all'] = lambda se, env, pc, e, d: lib.one(env, Enum('Ok', ((),)))
+    P[r'<snap::write::FrameEncoder<Vec<u8>> as std::io::Write>::flush'] = lambda se, env, pc, e: lib.one(env, Enum('Ok', ((),)))
+    P[r'snap::write::FrameEncoder::into_inner'] = lambda se, env, pc, e: lib.one(env, Enum('Ok', ({'len': comp, 'kind': 'compressed', 'off': bv(0)},)))
+    P[r'Vec::new'] = lambda se, env, pc: lib.one(env, {'len': bv(0), 'kind': 'empty', 'off': bv(0)})
+    P[r'crc::crc32::<impl Crc<u32>>::digest'] = lambda se, env, pc, c: lib.one(env, {'abstract': True, '__ty': 'Digest'})
+    P[r'crc::crc32::<impl Digest<.*>>::update'] = lib.unit
+    P[r'crc::crc32::<impl Digest<.*>>::finalize'] = lambda se, env, pc, d: lib.one(env, BitVec('crc', 32))
+    P[r'mask_checksum'] = lambda se, env, pc, c: lib.one(env, BitVec('masked', 32))
+    P[r'<u32 as FixedInt>::encode_fixed_vec'] = lambda se, env, pc, x: lib.one(env, {'len': bv(4), 'kind': 'u32', 'off': bv(0)})
+    def notify(se, env, pc, fb, off):
+        st = add(env, ('notify',)); return [(None, (), st)]
+    P[r'FilterBlockBuilder::notify_new_data_block'] = notify
+    ex = Exec(mir, S, loop_bound=4, opaque_calls_ok=True)
+    def k(ret, env, pc):
+        evs = env['$state']['events']; kinds = [e[0] for e in evs]
+        ok = isinstance(ret, Enum) and ret.tag == 'Ok'
+        nw = kinds.count('write')
+        executed_ok = And(*([oks[i] for i in range(min(nw, 3))] + ([fl_ok] if 'flush' in kinds else [])))
+        complete = nw >= 3 and 'flush' in kinds
+        posts = [('flushing a data block reports success although a write of the block (or the file flush) failed - the table is installed without the block, or with a torn one',
+                  Or(BoolVal(not ok), And(BoolVal(complete), executed_ok))),
+                 ('flushing a data block fails although every step succeeded', Or(BoolVal(ok), Not(And(BoolVal(complete), executed_ok)))),
+                 ('the file is written to after a failed write of the same block', BoolVal(True) if nw == 0 else And(*[Or(oks[i], BoolVal(nw <= i + 1)) for i in range(min(nw, 3))])),
+                 ('the filter block builder is told about a block that was not written completely', Or(BoolVal('notify' not in kinds), And(BoolVal(complete), executed_ok)))]
+        res.cases[','.join(kinds) + (' Ok' if ok else ' Err')] = 1
+        for label, post, m in ex.check_posts(posts, pc):
+            res.violations.append({'label': label, 'events': kinds, 'model': {str(x): mval(m, x) for x in oks + [fl_ok]}, 'replay': ['table_write_transient_fault_sweep']})
+    tb = mir.mk_struct('TableBuilder', options={'abstract': True}, file_closed=BoolVal(False), file='file', file_number=bv(1), current_offset=off0,
+                       data_block_builder={'abstract': True, '__ty': 'BlockBuilder'}, index_block_builder={'abstract': True, '__ty': 'BlockBuilder'},
+                       filter_block_builder={'abstract': True, '__ty': 'FilterBlockBuilder'}, num_entries=bv(0), maybe_last_key_added=Enum('None'))
+    ex.top(fn, [Ref('$tb')], {'$state': {'events': []}, '$tb': tb}, pre, k)
+    res.absorb(ex)
+    for pc, msg, where in ex.panics:
+        if 'overflow' in msg or 'subtract' in msg: continue
+        res.panic_paths += 1; res.violations.append({'label': 'panic path: ' + msg[:80], 'replay': None, 'confirmed_by': {'reproduced': False, 'detail': 'no native scenario'}})
+    res.wall_s = time.time() - t0
+    if res.violations: res.status = 'violation'
+    return res
+
+
+def o8_6_confirm(v, out):
+    if out.get('_rc') != 0: return (False, 'native run failed: %s' % out.get('_stderr', '')[-300:])
+    return (out.get('bad', '0') != '0', 'native: a flush during which exactly one write to the table file fails (%s positions tried): %s position(s) leave acknowledged keys with an older value / not found (first: %s)'
+            % (out.get('cases'), out.get('bad'), out.get('first_bad')))
+
+
 def o14_3_confirm(v, out):
     """Native: tables with 300 keys, 512-byte blocks and value lengths 1..=48 are built with the real TableBuilder (Bloom policy
     on) and every stored key is looked up with the real Table::get."""
@@ -439,6 +515,9 @@ def o14_6_confirm(v, out):
     """Native: tables with the empty user key, one-byte keys, repeated user keys and 0xff keys, block sizes 64 / 256 / 4096; every
     stored entry is looked up through Table::get (filter on)."""
     if out.get('_rc') != 0: return (False, 'native run failed: %s' % out.get('_stderr', '')[-300:])
+    if v.get('replay', [''])[0] == 'table_write_transient_fault_sweep':
+        return (out.get('bad', '0') != '0', 'native: a flush during which exactly one write to the table file fails (%s positions tried): %s position(s) leave acknowledged keys with an older value / not found (first: %s)'
+                % (out.get('cases'), out.get('bad'), out.get('first_bad')))
     return (out.get('missing', '0') != '0', 'native: %s stored entries reported absent (first: %s)' % (out.get('missing'), out.get('first_missing')))
 
 
@@ -545,6 +624,8 @@ def o14_7_finalize(mir, tier):
         res.cases['%s: %s' % ('Ok' if ok else 'Err', kinds)] = 1
         for label, post, m in ex.check_posts(posts, pc):
             res.violations.append({'label': label, 'events': kinds, 'replay': ['table_edge_keys']})
+            if 'reports success although a step failed' in label:
+                res.violations.append({'label': label, 'events': kinds, 'replay': ['table_write_transient_fault_sweep']})
     tb = mir.mk_struct('TableBuilder', options={'abstract': True, '__ty': 'DbOptions'}, file_closed=BoolVal(False), file='file', file_number=bv(1), current_offset=off0,
                        data_block_builder={'abstract': True, '__ty': 'BlockBuilder', '__which': 'data'}, index_block_builder={'abstract': True, '__ty': 'BlockBuilder', '__which': 'index'},
                        filter_block_builder={'abstract': True, '__ty': 'FilterBlockBuilder'}, num_entries=bv(1), maybe_last_key_added=Enum('Some', (Ref('$last'),)))
